@@ -89,13 +89,39 @@ def local_aliases(repo: Repo, fi: FuncInfo) -> dict[str, ast.AST]:
         if name in params:
             continue
         al = repo.local_alias(name, fi)
-        if isinstance(al, ast.Attribute) and _is_chain(al):
+        if isinstance(al, ast.Attribute) and _is_chain(al) and not _chain_mutable(repo, al):
             out[name] = al
     # resolve alias-of-alias
     for _ in range(3):
         for k, v in list(out.items()):
             out[k] = _Subst({a: b for a, b in out.items() if a != k}).visit(copy.deepcopy(v))
     return out
+
+
+def mutable_attrs(repo: Repo) -> set[str]:
+    """attribute names stored to outside ``__init__`` anywhere in the repo: a
+    local copy of such a field is a snapshot, not an alias."""
+    cached = getattr(repo, "_mutable_attrs", None)
+    if cached is not None:
+        return cached
+    out: set[str] = set()
+    for fi in repo.funcs.values():
+        if fi.name == "__init__":
+            continue
+        for n in repo.own_nodes(fi):
+            if isinstance(n, ast.Attribute) and isinstance(n.ctx, (ast.Store, ast.Del)):
+                out.add(n.attr)
+    repo._mutable_attrs = out  # type: ignore[attr-defined]
+    return out
+
+
+def _chain_mutable(repo: Repo, e: ast.AST) -> bool:
+    m = mutable_attrs(repo)
+    while isinstance(e, ast.Attribute):
+        if e.attr in m:
+            return True
+        e = e.value
+    return False
 
 
 def _is_chain(e: ast.AST) -> bool:
@@ -175,6 +201,15 @@ def _acquired_before(repo: Repo, fi: FuncInfo, trystmt: ast.Try, lid: str) -> bo
                             and lock_identity(repo, fi, c.func.value) == lid:
                         return True
     return False
+
+
+def enclosing_lock_with(repo: Repo, fi: FuncInfo, node: ast.AST, lockid: str) -> ast.With | None:
+    for a in repo.ancestors(node):
+        if a is fi.node:
+            break
+        if isinstance(a, ast.With) and any(lock_identity(repo, fi, it.context_expr) == lockid for it in a.items):
+            return a
+    return None
 
 
 def lock_regions(repo: Repo, fi: FuncInfo) -> list[tuple[str, ast.AST]]:
